@@ -150,7 +150,9 @@ def consume_arm():
             if f.endswith(".rs"):
                 rel = os.path.relpath(os.path.join(dp, f), gen_model.REPO)
                 s = strip_comments(read(rel))
-                for mm in re.finditer(r"\bcall_results\b\s*(\.\s*\w+)?", s):
+                if re.search(r"struct\s+IterableVecResolvedCall\s*\{[^}]*\bcall_results\s*:", s):
+                    continue        # an unrelated field of the same name (the values of a stream fold)
+                for mm in re.finditer(r"\b\w+\s*\.\s*call_results\b\s*(\.\s*\w+)?", s):
                     uses.append((rel, norm(mm.group(0))))
     return guard, op.group(1), op.group(2), some.group(3), none.group(1), uses
 
